@@ -328,3 +328,19 @@ class GenericI32(IntTy):
         self.name = param
         self.rust = param
         self.concrete = 'i32'
+
+
+class SlowMaxTy(IntTy):
+    """vmon::val::SlowMax: an i32 max-lattice whose join / clone pass through a perturbation point"""
+    is_lattice = True
+
+    def __init__(self):
+        IntTy.__init__(self, 'i32', -2**31, 2**31 - 1)
+        self.name = 'SlowMax'
+        self.rust = 'vmon::val::SlowMax'
+
+    def lit(self, v):
+        return 'vmon::val::SlowMax(%d)' % v
+
+
+SLOWMAX = SlowMaxTy()
